@@ -22,6 +22,7 @@ THEOREMS = ["pickle_succeeds", "pickle_observe", "eq_ignores_slack", "pickle_equ
             # tier T30: the argument lists of __reduce__ of the three buffer classes (Gen/WfmReduce)
             "gen_pickle_eq_model", "gen_reduce_passes_all_but_slack", "gen_reduce_reads_window", "gen_unpickle_is_ctor_call", "gen_pickle_observe",
             "gen_eq_ignores_slack", "gen_eq_sound",
+            "Props.C02.gen_array_pickle_roundtrip",
             "Props.ExtProps.gen_init_copies",
             "Props.C19.gen_Scalar_pickle_props", "Props.C19.gen_Vector_pickle_props", "Props.C19.gen_XYData_pickle_props"]
 RULE = ("values of every public type — DateTime, TimeDelta (128-bit edge lattice), DateTimeArray, TimeDeltaArray, "
